@@ -9,7 +9,7 @@ def extra(ctx):
     ok, exe, log = vlib.build_harness("c26", race=True)
     if not ok:
         return {"lines": ["HARNESS-ERROR race harness does not build: " + log.strip()[-600:]], "stats": stats}
-    n = {"quick": 12, "thorough": 200}[ctx["tier"]]
+    n = {"quick": 14, "thorough": 210}[ctx["tier"]]
     outdir = os.path.join(ctx["outdir"], "race")
     prop = {"id": "C26"}
     rc, out, trace, hstats = vlib.run_harness_once(exe, prop, ctx["tier"], ctx["seed"], "check", n, outdir, timeout=3000)
@@ -40,7 +40,8 @@ PROP = {
     "coq_targets": ["Properties/C26.vo", "Extract/C25Extract.vo"],
     "properties_file": "Properties/C26.v",
     "theorems": ["C26_lockset_discipline_orders_conflicts", "C26_lockset_consistent", "C26_fields_classified",
-                 "C26_guards_resolve", "C26_row_holds_guard", "C26_guarded_accesses_ordered_partial"],
+                 "C26_guards_resolve", "C26_row_holds_guard", "C26_no_shared_path_insertions",
+                 "C26_goroutines_joined_on_teardown", "C26_guarded_accesses_ordered_partial"],
     "allowed_axioms": [],
     "gen": [{"name": "locktab", "cmd": ["python3", "tools/locktab/run.py"], "timeout": 600}],
     "harness": "c26",
